@@ -4,7 +4,7 @@ from evalutil import *
 
 ID = "C05"
 LEVEL = "proof"
-MODULES = ["H3Proofs.Props.C05", "H3Proofs.Props.C05Neighbor"]
+MODULES = ["H3Proofs.Props.C05", "H3Proofs.Props.C05Neighbor", "H3Proofs.Props.C05Bfs"]
 THEOREMS = "auto"
 ASSUMPTIONS = ["hand-written model of h3NeighborRotations, _gridDiskDistancesInternal (array-faithful), the unsafe "
                "ring walks, gridRingUnsafe and areNeighborCells, tied to the code by exact correspondence (slot "
@@ -42,7 +42,7 @@ def streams(rng, tier):
         for d in range(0, 7):
             ops.append(f"nbr {x} {d} {rng.randrange(6)}")
         k = rng.randrange(0, 4)
-        ops += [f"disk {x} {k}", f"disksafe {x} {rng.randrange(0, 3)}", f"diskunsafe {x} {k}", f"ring {x} {k}", f"disk0 {x} 1"]
+        ops += [f"diskmap {x} {rng.randrange(0, 4)}", f"disk {x} {k}", f"disksafe {x} {rng.randrange(0, 3)}", f"diskunsafe {x} {k}", f"ring {x} {k}", f"disk0 {x} 1"]
     for r, kmax in ((0, 12), (1, 30)):
         for _ in range(2):
             ops.append(f"disk {gen.hx(gen.rand_cell(rng, res=r))} {rng.randrange(5, kmax)}")
